@@ -111,7 +111,14 @@ impl Probe for ResolveProbe {
                         all_ids(before, &mut ib);
                         all_ids(after, &mut ia);
                         let (sb, sa): (BTreeSet<_>, BTreeSet<_>) = (ib.iter().cloned().collect(), ia.iter().cloned().collect());
-                        if sb != sa {
+                        if is_del(leaf) {
+                            // choosing the deletion of the array itself: the array is gone (its elements with it)
+                            let wnow = m.get_winner(uuid).unwrap_or_default();
+                            if !is_del(&wnow) {
+                                cx.violation("C07", "C07:resolving-to-a-deletion-did-not-delete", sc, &h, json!({"uuid": uuid, "leaf": leaf, "winner_after": wnow, "read_after": read_after}));
+                                continue;
+                            }
+                        } else if sb != sa {
                             cx.violation("C07", "C07:array-resolution-changed-membership", sc, &h, json!({"uuid": uuid, "leaf": leaf, "before": before, "after": after}));
                             continue;
                         }
@@ -218,6 +225,8 @@ pub fn scenarios(thorough: bool) -> Vec<Scenario> {
     v.push(pair_conflict_scenario("pair-edit-lo-vs-delete", 16, 3, &[9], if thorough { 3 } else { 2 }, &[Op::Resolve(1, 0, 0), Op::Resolve(1, 1, 0), Op::Resolve(1, 1, 1), Op::Sync(0, 1)]));
     v.push(tie_scenario("pair-tie", if thorough { 3 } else { 2 }, &[]));
     v.push(three_leaves_scenario("trio-three-leaves", if thorough { 4 } else { 3 }, &[]));
+    v.push(array_deleted_scenario("pair-array-deleted-vs-edited-once", 1, if thorough { 4 } else { 3 }, &[]));
+    v.push(array_deleted_scenario("pair-array-deleted-vs-edited-twice", 2, if thorough { 4 } else { 3 }, &[]));
     v.extend(cross_scenarios(thorough));
     v
 }
